@@ -65,6 +65,9 @@ type Config struct {
 	ZeroAttempts  bool `json:"retry_attempts_zero,omitempty"`
 	RetryTimeoutS int  `json:"retry_s"`   // SYSTEM_SETTINGS.RetryTimeoutS
 	Bernstein     bool `json:"bernstein"` // fingerprint type
+	// AsyncNode configures the database node with async_insert = true (DATABASE_DATA[].AsyncInsert);
+	// the plugin hands it to every insert service (InsertServiceOpts.AsyncInsert).
+	AsyncNode bool `json:"async_node,omitempty"`
 }
 
 // Attempts is the configured system_settings.retry_attempts.
@@ -145,6 +148,7 @@ func New(cfg Config) *Harness {
 	node := &model.DataDatabasesMap{}
 	node.Node = NodeName
 	node.Name = "qryn"
+	node.AsyncInsert = cfg.AsyncNode
 	node.WriteTimeout = 600 // seconds; context.WithTimeout(svc.ctx, WriteTimeout) bounds every Do
 
 	h := &Harness{Cfg: cfg, DB: fakech.NewServer(), Node: node, Svc: map[Kind]*Proxy{}}
@@ -159,21 +163,21 @@ func New(cfg Config) *Harness {
 	// mirrors plugin.CreateStaticServiceRegistry (writer/plugin/qryn_writer_db.go): which
 	// services get MaxQueueSize and which flush which
 	raw[Series] = impl.NewTimeSeriesInsertService(model.InsertServiceOpts{
-		Session: h.DB.Factory(), Node: node, Interval: interval, ParallelNum: cfg.Workers})
+		Session: h.DB.Factory(), Node: node, Interval: interval, ParallelNum: cfg.Workers, AsyncInsert: node.AsyncInsert})
 	raw[Samples] = impl.NewSamplesInsertService(model.InsertServiceOpts{
-		Session: h.DB.Factory(), Node: node, Interval: interval, ParallelNum: cfg.Workers,
+		Session: h.DB.Factory(), Node: node, Interval: interval, ParallelNum: cfg.Workers, AsyncInsert: node.AsyncInsert,
 		MaxQueueSize: cfg.MaxQueueSize, OnBeforeInsert: planFlush(Series)})
 	raw[Metrics] = impl.NewMetricsInsertService(model.InsertServiceOpts{
-		Session: h.DB.Factory(), Node: node, Interval: interval, ParallelNum: cfg.Workers,
+		Session: h.DB.Factory(), Node: node, Interval: interval, ParallelNum: cfg.Workers, AsyncInsert: node.AsyncInsert,
 		MaxQueueSize: cfg.MaxQueueSize, OnBeforeInsert: planFlush(Series)})
 	raw[Spans] = impl.NewTempoSamplesInsertService(model.InsertServiceOpts{
-		Session: h.DB.Factory(), Node: node, Interval: interval, ParallelNum: cfg.Workers,
+		Session: h.DB.Factory(), Node: node, Interval: interval, ParallelNum: cfg.Workers, AsyncInsert: node.AsyncInsert,
 		MaxQueueSize: cfg.MaxQueueSize, OnBeforeInsert: planFlush(Tags)})
 	raw[Tags] = impl.NewTempoTagsInsertService(model.InsertServiceOpts{
-		Session: h.DB.Factory(), Node: node, Interval: interval, ParallelNum: cfg.Workers,
+		Session: h.DB.Factory(), Node: node, Interval: interval, ParallelNum: cfg.Workers, AsyncInsert: node.AsyncInsert,
 		MaxQueueSize: cfg.MaxQueueSize, OnBeforeInsert: planFlush(Spans)})
 	raw[Profile] = impl.NewProfileSamplesInsertService(model.InsertServiceOpts{
-		Session: h.DB.Factory(), Node: node, Interval: interval, ParallelNum: cfg.Workers})
+		Session: h.DB.Factory(), Node: node, Interval: interval, ParallelNum: cfg.Workers, AsyncInsert: node.AsyncInsert})
 
 	maps := map[Kind]map[string]service.IInsertServiceV2{}
 	for _, k := range Kinds {
